@@ -9,7 +9,7 @@ Every request carries `"v":[arpLow8, prereqExact, exactSig, tosDscp]`: which of 
 
 * `{"op":"pairs","phdr":P,"port":n,"matches":[{"rec":[13 numbers],"wire":bool},…]}`
     → `{"pm":[wildcards, 12 views (null = wildcarded)], "hdr":[12 spec headers], "res":[[wildcards, matched, specMatched],…]}`
-* `{"op":"subsume","pairs":[{"a":rec,"b":rec,"wire":bool},…]}` → `{"res":[[matchesWith true, Spec.subsumes],…]}`
+* `{"op":"subsume","pairs":[{"a":rec,"b":rec,"wire":bool,"a2":rec?},…]}` → `{"res":[[matchesWith true a b, Spec.subsumes, a == b, matchesWith false (a2 | a) b],…]}`
 * `{"op":"table","entries":[[priority, rec],…],"frames":[{"phdr":P,"port":n},…]}`
     → `{"order":[original index…],"eff":[effective priority…],"exact":[is_exact per original entry…],"lookups":[original index | null…],
         "spec":[[matchHdr per original entry…] per frame],"rank":[Spec.rankSig per original entry]}`
@@ -105,7 +105,11 @@ def doSubsume (j : J) : Except String J := do
     let b ← recOf (← pj.get "b")
     let w ← pj.boolean "wire"
     let (ma, mb) := if w then (v.ofWire a, v.ofWire b) else (a, b)
-    pure (J.arr [jb (v.mww true ma mb), jb (Spec.subsumes a b), jb (OfMatch.eqMatch ma mb), jb (v.mww false ma mb)])
+    -- `"a2"` (optional): the match the lenient test is evaluated on instead of `a` (the harness uses it to mirror how the address
+    -- class compares an all-zero MAC with "no value"; correspondence-only observable, see harness/c03.py)
+    let a2 ← (match pj.get? "a2" with | some x => recOf x | none => pure a)
+    let ma2 := if w then v.ofWire a2 else a2
+    pure (J.arr [jb (v.mww true ma mb), jb (Spec.subsumes a b), jb (OfMatch.eqMatch ma mb), jb (v.mww false ma2 mb)])
   pure (J.mk [("res", J.arr res)])
 
 def doTable (j : J) : Except String J := do
